@@ -22,7 +22,7 @@ Import ListNotations.
 Open Scope Z_scope.
 
 (* what a Python name can be bound to *)
-Inductive value :=
+Inductive pyval :=
 | VInt (k : Z)                               (* int *)
 | VStr (v : string)                          (* str: a variable name *)
 | VLit (v : string) (s : bool)               (* Literal *)
@@ -35,7 +35,7 @@ Inductive value :=
    algebra (Python raises TypeError / "Invalid type", or it is plain int / str arithmetic) ---- *)
 
 (* Expr.__add__(self = e, y) *)
-Definition add_opnd (e : expr) (y : value) : option expr :=
+Definition add_opnd (e : expr) (y : pyval) : option expr :=
   match y with
   | VInt k => Some (add_int e k)
   | VStr v => Some (add_term e v true 1)         (* self + Term(Literal(str)) *)
@@ -45,7 +45,7 @@ Definition add_opnd (e : expr) (y : value) : option expr :=
   | _ => None
   end.
 (* Expr.__sub__(self = e, y) *)
-Definition sub_opnd (e : expr) (y : value) : option expr :=
+Definition sub_opnd (e : expr) (y : pyval) : option expr :=
   match y with
   | VInt k => Some (add_int e (- k))             (* self + (-int) *)
   | VStr v => Some (add_term e v true (-1))      (* self + Term(L, -1) *)
@@ -55,17 +55,17 @@ Definition sub_opnd (e : expr) (y : value) : option expr :=
   | _ => None
   end.
 (* Expr() + x   for a Literal / Term x (the first step of every Literal / Term overload) *)
-Definition lift (x : value) : option expr :=
+Definition lift (x : pyval) : option expr :=
   match x with
   | VLit v s => Some (add_term zero v s 1)
   | VTerm v s k => Some (add_term zero v s k)
   | _ => None
   end.
-Definition oexpr (o : option expr) : option value :=
+Definition oexpr (o : option expr) : option pyval :=
   match o with Some e => Some (VExpr e) | None => None end.
 
 (* x + y.  int / str on the left reach Literal.__radd__ / Term.__radd__ (Expr has no __radd__) *)
-Definition v_add (x y : value) : option value :=
+Definition v_add (x y : pyval) : option pyval :=
   match x with
   | VExpr e => oexpr (add_opnd e y)
   | VLit _ _ | VTerm _ _ _ =>
@@ -75,10 +75,10 @@ Definition v_add (x y : value) : option value :=
   | _ => None
   end.
 (* x - y: only Expr defines __sub__ *)
-Definition v_sub (x y : value) : option value :=
+Definition v_sub (x y : pyval) : option pyval :=
   match x with VExpr e => oexpr (sub_opnd e y) | _ => None end.
 (* x * k, k * x *)
-Definition v_times (x : value) (k : Z) : option value :=
+Definition v_times (x : pyval) (k : Z) : option pyval :=
   match x with
   | VLit v s => Some (VTerm v s k)               (* Term(self, k) *)
   | VTerm v s c => Some (VTerm v s (c * k))
@@ -86,17 +86,17 @@ Definition v_times (x : value) (k : Z) : option value :=
   | _ => None
   end.
 (* -literal: logical negation *)
-Definition v_not (x : value) : option value :=
+Definition v_not (x : pyval) : option pyval :=
   match x with VLit v s => Some (VLit v (negb s)) | _ => None end.
 (* -term: arithmetic negation *)
-Definition v_neg (x : value) : option value :=
+Definition v_neg (x : pyval) : option pyval :=
   match x with VTerm v s k => Some (VTerm v s (- k)) | _ => None end.
 (* the copy constructors Literal(l.v, l.s) / Term(t.L, t.c) / Expr(e.c, e.t) *)
-Definition v_copy (x : value) : option value :=
+Definition v_copy (x : pyval) : option pyval :=
   match x with VLit _ _ | VTerm _ _ _ | VExpr _ => Some x | _ => None end.
 
 (* Ineq(lhs, rhs, op): swap for <= and <, then lhs - rhs with Expr.__sub__ *)
-Definition v_ineq (x : value) (op : cmp) (y : value) : option value :=
+Definition v_ineq (x : pyval) (op : cmp) (y : pyval) : option pyval :=
   let '(l, r, op') := match op with
                       | LE => (y, x, GE) | LT => (y, x, GT) | EQ2 => (x, y, EQ)
                       | o => (x, y, o) end in
@@ -106,7 +106,7 @@ Definition v_ineq (x : value) (op : cmp) (y : value) : option value :=
   end.
 (* x >= y, x <= y, x > y, x < y, x == y through the overloaded operators:
    Expr:  Ineq(self, Expr() + y, op);  Literal / Term:  (Expr() + self) op (Expr() + y) *)
-Definition v_cmp (x : value) (op : cmp) (y : value) : option value :=
+Definition v_cmp (x : pyval) (op : cmp) (y : pyval) : option pyval :=
   match op with
   | EQ2 => None                                   (* "==" is a spelling of the constructor only *)
   | _ =>
@@ -139,15 +139,16 @@ Inductive bind :=
 | BSub (i j : nat)
 | BCmp (i : nat) (op : cmp) (j : nat) (* x_i op x_j *)
 | BIneq (i : nat) (op : cmp) (j : nat)(* Ineq(x_i, x_j, "op") *)
+| BSum (l : list nat)                 (* sum([x_i ...], Expr()) / e = Expr(); for x in ...: e = e + x  (e += x) *)
 | BObs (i : nat).                     (* tostr / isclause / getrobdd / evalexpr on x_i: reads, binds nothing *)
 
-Definition get (env : list value) (i : nat) : option value := nth_error env i.
-Definition ap1 (f : value -> option value) (o : option value) : option value :=
+Definition get (env : list pyval) (i : nat) : option pyval := nth_error env i.
+Definition ap1 (f : pyval -> option pyval) (o : option pyval) : option pyval :=
   match o with Some x => f x | None => None end.
-Definition ap2 (f : value -> value -> option value) (o p : option value) : option value :=
+Definition ap2 (f : pyval -> pyval -> option pyval) (o p : option pyval) : option pyval :=
   match o, p with Some x, Some y => f x y | _, _ => None end.
 
-Definition step (env : list value) (b : bind) : option value :=
+Definition step (env : list pyval) (b : bind) : option pyval :=
   match b with
   | BInt k => Some (VInt k)
   | BStr v => Some (VStr v)
@@ -161,16 +162,17 @@ Definition step (env : list value) (b : bind) : option value :=
   | BSub i j => ap2 v_sub (get env i) (get env j)
   | BCmp i op j => ap2 (fun x y => v_cmp x op y) (get env i) (get env j)
   | BIneq i op j => ap2 (fun x y => v_ineq x op y) (get env i) (get env j)
+  | BSum l => fold_left (fun acc i => ap2 v_add acc (get env i)) l (Some (VExpr (mkE 0 [])))
   | BObs i => ap1 (fun _ => Some VNone) (get env i)
   end.
 
 (* the history continues from the environment [env]; result: all bindings, oldest first *)
-Fixpoint run_from (env : list value) (bs : list bind) : option (list value) :=
+Fixpoint run_from (env : list pyval) (bs : list bind) : option (list pyval) :=
   match bs with
   | [] => Some env
   | b :: r => match step env b with Some v => run_from (env ++ [v]) r | None => None end
   end.
-Definition run (bs : list bind) : option (list value) := run_from [] bs.
+Definition run (bs : list bind) : option (list pyval) := run_from [] bs.
 
 (* ---- unfolded trees: the same operators, operands in place ---- *)
 Inductive utree :=
@@ -188,7 +190,7 @@ Inductive utree :=
 | UIneq (t : utree) (op : cmp) (u : utree)
 | UObs (t : utree).
 
-Fixpoint ubuild (t : utree) : option value :=
+Fixpoint ubuild (t : utree) : option pyval :=
   match t with
   | UInt k => Some (VInt k)
   | UStr v => Some (VStr v)
@@ -226,6 +228,7 @@ Definition unfold1 (ts : list utree) (b : bind) : option utree :=
   | BSub i j => tap2 USub (tget ts i) (tget ts j)
   | BCmp i op j => tap2 (fun t u => UCmp t op u) (tget ts i) (tget ts j)
   | BIneq i op j => tap2 (fun t u => UIneq t op u) (tget ts i) (tget ts j)
+  | BSum l => fold_left (fun acc i => tap2 UAdd acc (tget ts i)) l (Some (UExprC 0))
   | BObs i => tap1 UObs (tget ts i)
   end.
 Fixpoint unfold_from (ts : list utree) (bs : list bind) : option (list utree) :=
@@ -235,7 +238,7 @@ Fixpoint unfold_from (ts : list utree) (bs : list bind) : option (list utree) :=
   end.
 Definition unfold_all (bs : list bind) : option (list utree) := unfold_from [] bs.
 
-Fixpoint build_all (ts : list utree) : option (list value) :=
+Fixpoint build_all (ts : list utree) : option (list pyval) :=
   match ts with
   | [] => Some []
   | t :: r => match ubuild t, build_all r with Some v, Some vs => Some (v :: vs) | _, _ => None end
@@ -264,7 +267,7 @@ Definition uholds (a : asg) (t : utree) : Prop :=
   end.
 
 (* meaning of a value *)
-Definition vmean (a : asg) (x : value) : Z :=
+Definition vmean (a : asg) (x : pyval) : Z :=
   match x with
   | VInt k => k
   | VStr v => lit a v true
@@ -274,13 +277,13 @@ Definition vmean (a : asg) (x : value) : Z :=
   | _ => 0
   end.
 (* the normalised forms never carry a zero / negative coefficient or a variable twice *)
-Definition vgood (x : value) : Prop :=
+Definition vgood (x : pyval) : Prop :=
   match x with
   | VExpr e => NF e
   | VIneq i => NF (mkE 0 (il i))
   | _ => True
   end.
-Definition vholds (a : asg) (x : value) : Prop :=
+Definition vholds (a : asg) (x : pyval) : Prop :=
   match x with VIneq i => holds a i | _ => True end.
 
 (* the expression trees of PB/Expr.v are a fragment of this language *)
@@ -301,7 +304,7 @@ Fixpoint emb (t : tree) : utree :=
   end.
 
 (* ---- boolean comparison with what the implementation holds at the end of a history ---- *)
-Definition value_eqb (x y : value) : bool :=
+Definition value_eqb (x y : pyval) : bool :=
   match x, y with
   | VInt a, VInt b => Z.eqb a b
   | VStr a, VStr b => String.eqb a b
@@ -312,9 +315,18 @@ Definition value_eqb (x y : value) : bool :=
   | VNone, VNone => true
   | _, _ => false
   end.
-Fixpoint values_eqb (a b : list value) : bool :=
+Fixpoint values_eqb (a b : list pyval) : bool :=
   match a, b with
   | [], [] => true
   | x :: a', y :: b' => value_eqb x y && values_eqb a' b'
+  | _, _ => false
+  end.
+(* [None] in the observation: an object the history itself gave up (the old value of a name after `x += y`) *)
+Definition ovalue_eqb (v : pyval) (o : option pyval) : bool :=
+  match o with None => true | Some x => value_eqb v x end.
+Fixpoint ovalues_eqb (a : list pyval) (b : list (option pyval)) : bool :=
+  match a, b with
+  | [], [] => true
+  | x :: a', y :: b' => ovalue_eqb x y && ovalues_eqb a' b'
   | _, _ => false
   end.
